@@ -10,7 +10,7 @@
 //   match g=3   <hexpattern> <hexmsg>
 //   reply g=6   <P|C> <strlen> <r|b>
 //   disp  g=4,5,6 <tree> <hexmsg> <loc N|L|Z><base 0|1><data P|C> ...
-//         tree = S0 | S1 (static sugar tree; S1: Mid::pleaf == NULL)
+//         tree = S0 | S1 (static sugar tree; S1: Mid::pleaf == NULL) | S2 (ClonePorts of Leaf with a "*" default)
 //              | G<table>;<table>...   table = <flag -|d|s>:<hexname>.<cb>|...
 //                cb = L<k> (callback + metadata of c03::Leaf::ports[k]) | R<j> (recurse into table j>i)
 //   link  g=7   <maxmsg> <nmsg> <op>,<op>,...    op = w<hexmsg> raw_write | W<k> write (shape k)
@@ -215,6 +215,7 @@ static std::string do_cbs(void)
 {
     std::vector<std::string> t;
     collect_types(Root::ports, t);
+    collect_types(Cloned::ports, t);
     t.push_back(demangled(recur_into(&Leaf::ports).target_type().name()));
     t.push_back(demangled(default_reply().target_type().name()));
     t.push_back(demangled(default_silent().target_type().name()));
@@ -367,7 +368,9 @@ static std::string do_disp(const std::vector<std::string> &f)
     const Ports *root = 0;
     Leaf leaf; memset((void*)&leaf, 0, sizeof leaf);
     void *obj = 0;
-    if(f[2][0] == 'S') {
+    if(f[2] == "S2") {
+        root = &Cloned::ports; obj = &leaf;
+    } else if(f[2][0] == 'S') {
         w.reset(new World(f[2] == "S1"));
         root = &Root::ports; obj = &w->root;
     } else {
